@@ -5,6 +5,7 @@ cd "$(dirname "$0")/.."
 LOGDIR=${LOGDIR:-/dev/shm/logs}; mkdir -p $LOGDIR
 ids="$@"; [ -z "$ids" ] && ids=$(python3 -c "import json;print(' '.join(c['property_id'] for c in json.load(open('MANIFEST.json'))['checks']))")
 for id in $ids; do
+  while [ -e /dev/shm/pause_thorough ]; do sleep 20; done   # lets a seed test borrow /repo between two checks
   t0=$(date +%s)
   ./check $id --tier thorough > $LOGDIR/thorough_$id.log 2>&1; code=$?
   t1=$(date +%s)
